@@ -17,6 +17,8 @@ b parser_h "-yaml" --no-default-features --features yaml
 b parser_h "-json5" --no-default-features --features json5
 b parser_h "-json-suppress" --no-default-features --features json,suppress
 for c in codegen_h runtime_h router_h ctx_h runtime_dyn_h build_h locale_h fmt_h; do b $c ""; done
+# ctx_h with reactive_graph's `effects` (Effect / RenderEffect run natively; C16 runs every sequence on both builds): own target dir
+b ctx_h "-effects" --no-default-features --features effects
 # leptos_i18n WITHOUT icu_compiled_data (custom ICU data provider, C18 part v): own target dir, never shared
 b fmt_np_h "-np"
 # probe crates: compile the dependency graph of a generated user crate once
